@@ -502,7 +502,134 @@ def r07_10(ctx: Ctx, rule: str = "R07.10") -> None:
               f"{missing} keeps the placeholder header and cannot be opened ('invalid header data'), without any error at close", construct="modes flushed at close")
 
 
+def _writer_words(ctx: Ctx, cls) -> List[List[str]]:
+    """the sequences of PROPERTY ids a section writer emits, one per structural path (conditionals fork, loops are taken zero times and
+    once, private `_write*` helpers are inlined with the id passed as argument)."""
+    words: List[List[str]] = []
+    budget = [3000]
+
+    def prop_of(e, binding):
+        if isinstance(e, ast.Attribute) and isinstance(e.value, ast.Name) and e.value.id == "PROPERTY":
+            return e.attr
+        if isinstance(e, ast.Name) and e.id in binding:
+            return binding[e.id]
+        return None
+
+    def ids_in_expr(e, binding, out):
+        for c in [x for x in ast.walk(e) if isinstance(x, ast.Call)]:
+            nm = attr_tail(c) if isinstance(c.func, ast.Attribute) else (c.func.id if isinstance(c.func, ast.Name) else "")
+            if nm == "write_byte" and len(c.args) > 1:
+                p = prop_of(c.args[1], binding)
+                if p:
+                    out.append(("id", p))
+            elif nm == "write" and c.args and isinstance(c.func, ast.Attribute):
+                p = prop_of(c.args[0], binding)
+                if p:
+                    out.append(("id", p))
+            elif nm.startswith("_write") and isinstance(c.func, ast.Attribute) and isinstance(c.func.value, ast.Name) and c.func.value.id == "self" and nm in cls.methods:
+                m = cls.methods[nm]
+                b2 = {}
+                for i, a in enumerate(c.args):
+                    p = prop_of(a, binding)
+                    if p and i < len(m.params) - 1:
+                        b2[m.params[1 + i]] = p
+                out.append(("call", m, b2))
+
+    def touches_ids(node, binding) -> bool:
+        evs = []
+        ids_in_expr(node, binding, evs)
+        return bool(evs) or any(isinstance(x, (ast.Return, ast.Raise)) for x in ast.walk(node))
+
+    def run_block(body, word, binding, k):
+        if budget[0] <= 0:
+            raise AnalysisError("writer id-word enumeration exceeded its path budget")
+        if not body:
+            return k(word)
+        s0, rest = body[0], body[1:]
+        cont = lambda w: run_block(rest, w, binding, k)  # noqa: E731
+        if isinstance(s0, (ast.If, ast.For, ast.While, ast.With, ast.Try)) and not touches_ids(s0, binding):
+            return cont(word)   # nothing in there writes an id or leaves the function
+        if isinstance(s0, ast.Return):
+            budget[0] -= 1
+            words.append(list(word))
+            return
+        if isinstance(s0, ast.Raise):
+            return
+        if isinstance(s0, ast.If):
+            evs = []
+            ids_in_expr(s0.test, binding, evs)
+            w0 = word + [e[1] for e in evs if e[0] == "id"]
+            run_block(s0.body, w0, binding, cont)
+            run_block(s0.orelse, w0, binding, cont)
+            return
+        if isinstance(s0, (ast.For, ast.While)):
+            cont(word)                                  # zero iterations
+            run_block(s0.body, word, binding, cont)     # one iteration (ids written in a loop repeat a record: reported as they come)
+            return
+        if isinstance(s0, (ast.With, ast.Try)):
+            return run_block(list(s0.body) + rest, word, binding, k)
+        evs = []
+        ids_in_expr(s0, binding, evs)
+        def apply(i, w):
+            if i == len(evs):
+                return cont(w)
+            e = evs[i]
+            if e[0] == "id":
+                return apply(i + 1, w + [e[1]])
+            _, m, b2 = e
+            return run_block(list(m.node.body), w, b2, lambda w2: apply(i + 1, w2))
+        return apply(0, word)
+
+    wr = cls.methods["write"]
+    run_block(list(wr.node.body), [], {}, lambda w: (budget.__setitem__(0, budget[0] - 1), words.append(list(w))))
+    return [list(w) for w in sorted({tuple(w) for w in words})]
+
+
+def r07_12(ctx: Ctx, rule: str = "R07.12") -> None:
+    """every section writer emits a word of the section's grammar on every path: the section id first, kEnd last, the records between them
+    each at most once, in format order (FilesInfo: any order, kEmptyFile only after kEmptyStream) and the mandatory ones always.  A path
+    that writes nothing at all (empty section left out) is allowed."""
+    n = 0
+    for cname, (sec, order, end) in sorted(spec7z.WRITER_WORDS.items()):
+        cls = ctx.prog.cls(cname, "archiveinfo")
+        words = _writer_words(ctx, cls)
+        ctx.need(bool(words), f"{cname}.write: no path found")
+        for w in words:
+            n += 1
+            if not w:
+                ctx.ok(rule, f"{cname}.write: a path that leaves the section out")
+                continue
+            why = None
+            if w[0] != sec:
+                why = f"does not start with k{sec}"
+            elif w[-1] != end:
+                why = "does not end with kEnd"
+            else:
+                mid = w[1:-1]
+                if len(set(mid)) != len(mid):
+                    why = "repeats a record"
+                elif order is not None:
+                    if any(x not in order for x in mid):
+                        why = f"contains {[x for x in mid if x not in order]}, which the section does not have"
+                    elif mid != sorted(mid, key=order.index):
+                        why = "records out of format order"
+                else:
+                    if any(x not in spec7z.FILESINFO_RECORDS for x in mid):
+                        why = f"contains {[x for x in mid if x not in spec7z.FILESINFO_RECORDS]}, which is no member property"
+                    elif "EMPTY_FILE" in mid and ("EMPTY_STREAM" not in mid or mid.index("EMPTY_FILE") < mid.index("EMPTY_STREAM")):
+                        why = "kEmptyFile without a preceding kEmptyStream"
+                if why is None:
+                    missing = [x for x in spec7z.WRITER_MANDATORY[cname] if x not in mid]
+                    if missing:
+                        why = f"lacks the mandatory record(s) {missing}"
+            ctx.check(why is None, rule, cls.methods["write"], cls.methods["write"].node, f"{cname}.write emits the grammar word {' '.join(w)}",
+                      f"{cname}.write can emit the id sequence [{' '.join(w)}], which {why}: the section is not well-formed for any reader",
+                      construct=f"{cname} writer word {' '.join(w)[:60]}")
+    ctx.floor(rule, n, 8, "writer paths checked against the section grammars")
+
+
 def run(ctx: Ctx) -> None:
+    r07_12(ctx)
     shared.layout_agreement(ctx, "R07.11")
     r07_10(ctx)
     from . import c15
